@@ -271,10 +271,9 @@ def run_check(tier, seed, fixes, limit, procs=None):
     divergent = []
     _G['nodes'] = nodes
     if any_jobs:
-        ctx = multiprocessing.get_context('fork')
-        with ctx.Pool(procs or min(16, os.cpu_count() or 1)) as pool:
-            for out in pool.imap_unordered(_any_chunk, any_jobs):
-                divergent.extend(out)
+        from . import pools
+        for out in pools.fork_map(_any_chunk, any_jobs, procs):
+            divergent.extend(out)
     t_any = time.time() - t_rep
     t_rep = time.time()
     results = R.run_children([{'scn': by_name[name], 'script': [a for a in actions_of(nodes, p) if a[0] != 'run']}
